@@ -858,6 +858,18 @@ def h_abs_diff(ax, ip, inst, fid, bi, st, t, fn, args, argpl, dty):
 
 
 def h_contains(ax, ip, inst, fid, bi, st, t, fn, args, argpl, dty):
+    """RangeInclusive::contains(&self, &item): start <= item && item <= end"""
+    r = ax.deref(ip, st, args[0])
+    item_ref = ip.materialize(args[1])
+    item, pitem = ax.deref1(ip, st, item_ref)
+    if isinstance(item, Rf):
+        item, pitem = ax.deref1(ip, st, item)
+    if isinstance(r, St) and len(r.fields) >= 2:
+        lo, hi = ip.materialize(r.fields[0]), ip.materialize(r.fields[1])
+        if isinstance(lo, type(item)) and isinstance(hi, type(item)) and isinstance(item, (Fl, In)):
+            b1 = ip.binop("Le", lo, item, None, pitem, False, inst, bi, None)
+            b2 = ip.binop("Le", item, hi, pitem, None, False, inst, bi, None)
+            return Bo(b1.t and b2.t, b1.f or b2.f, ("and", b1.origin, b2.origin), ip.stamp), st
     return Bo(True, True), st
 
 
